@@ -54,8 +54,37 @@ func main() {
 
 // batchSizeOf finds the batch size of layerYZ.Evaluate of the tree under test from its use in the
 // batching loop (harness/sysgen), whatever the constant is called and wherever it is declared.
+// If the translator does not understand the edited function the tie is already reported as broken by
+// the gen step; the run-time part must still be able to look for a failing input, so it falls back to
+// any integer constant of the render package whose name ends in "atchSize", then to 100.
 func batchSizeOf(repo string) (int, error) {
-	return sysgen.BatchSize(repo)
+	if b, err := sysgen.BatchSize(repo); err == nil {
+		return b, nil
+	}
+	ents, err := os.ReadDir(filepath.Join(repo, "render"))
+	if err != nil {
+		return 0, err
+	}
+	for _, e := range ents {
+		if e.IsDir() || !strings.HasSuffix(e.Name(), ".go") || strings.HasSuffix(e.Name(), "_test.go") {
+			continue
+		}
+		text, err := os.ReadFile(filepath.Join(repo, "render", e.Name()))
+		if err != nil {
+			continue
+		}
+		for _, line := range strings.Split(string(text), "\n") {
+			f := strings.Fields(line)
+			for i := 0; i+2 < len(f); i++ {
+				if strings.HasSuffix(f[i], "atchSize") && f[i+1] == "=" {
+					if v, err := strconv.Atoi(f[i+2]); err == nil && v > 0 {
+						return v, nil
+					}
+				}
+			}
+		}
+	}
+	return 100, nil
 }
 
 // recorder gives the j-th point of the layer loop the value j and perturbs the schedule.
